@@ -20,6 +20,12 @@ RECURSIVE LineStart(_,_)
 LineStart(txt, i) == IF i = 1 THEN 0 ELSE LineStart(txt, i-1) + LineBytes(txt[i-1]) + 1      \* + 1 for the line feed
 TotalBytes(txt) == LineStart(txt, Len(txt)) + LineBytes(txt[Len(txt)])
 Boundaries(txt) == UNION { { LineStart(txt, i) + ColOff(txt[i], c) : c \in 1..(Len(txt[i]) + 1) } : i \in 1..Len(txt) }
+\* the ranges a diagnostic can carry: the text of a symbol, an identifier or a subexpression -- it begins and ends with a
+\* character that is not whitespace -- or an empty range (end of input).  listing() is not required to cope with others.
+Reportable(txt, s, e) ==
+  \/ s = e
+  \/ /\ \E i \in 1..Len(txt) : \E c \in 1..Len(txt[i]) : LineStart(txt, i) + ColOff(txt[i], c) = s /\ ~txt[i][c].ws
+     /\ \E i \in 1..Len(txt) : \E c \in 1..Len(txt[i]) : LineStart(txt, i) + ColOff(txt[i], c) + txt[i][c].w = e /\ ~txt[i][c].ws
 \* ---- what the statement requires of an excerpt for range [s, e)
 \* a line is spanned if some byte of it (its characters or its line feed) lies in the range; an empty range spans nothing by itself
 Spanned(txt, i, s, e) == LET ls == LineStart(txt, i)  le == ls + LineBytes(txt[i]) IN   \* le = offset of the line feed
